@@ -10,10 +10,10 @@ LEGACY_VALUES = [None, "", "0", "1", "yes", "00", "01"]
 
 def wire_configs(thorough):
     cfgs = [(BE_RS, 4, 2, 2), (BE_XOR, 3, 3, 3), (BE_ISAL_VAND, 4, 2, 2), (BE_ISAL_CAUCHY, 5, 3, 3), (BE_NULL, 4, 2, 2),
-            (BE_XOR, 10, 6, 4), (BE_RS, 1, 1, 1), (BE_RS, 10, 4, 4)]
+            (BE_XOR, 10, 6, 4), (BE_RS, 1, 1, 1), (BE_RS, 10, 4, 4), (BE_RS, 20, 12, 12)]
     if thorough:
         cfgs += [(BE_XOR, k, m, hd) for (k, m, hd) in XOR_TABLES[1:38:3]]
-        cfgs += [(BE_RS, k, m, m) for (k, m) in [(2, 3), (3, 1), (7, 5), (16, 16), (31, 1), (1, 31), (12, 4), (5, 2), (20, 12)]]
+        cfgs += [(BE_RS, k, m, m) for (k, m) in [(2, 3), (3, 1), (7, 5), (16, 16), (31, 1), (1, 31), (12, 4), (5, 2)]]
         cfgs += [(BE_ISAL_VAND, 10, 4, 4), (BE_ISAL_CAUCHY, 12, 6, 6), (BE_ISAL_CAUCHY, 1, 1, 1)]
     return cfgs
 
